@@ -46,7 +46,7 @@ pub fn draw_knobs(rng: &mut Rng, profile: &str) -> Knobs {
   let mut weights: Vec<u32> = if profile == "C04" {
     vec![2, 6, 2, 14, 4, 8, 0, 0, 0, 6, 0]
   } else {
-    vec![6, 6, 6, 5, 4, 3, 4, 3, 3, 4, 3]
+    vec![6, 6, 6, 5, 4, 3, 4, 3, 3, 4, 4]
   };
   // swarm: knock out or boost some operation kinds
   for w in weights.iter_mut() {
@@ -274,7 +274,7 @@ pub fn next_op(rng: &mut Rng, k: &Knobs, m: &Model) -> Op {
       6 => gen_field_assign(rng, k, m, fault),
       7 => gen_tuple_assign(rng, k, m, fault),
       8 => gen_destructure(rng, k, m, fault),
-      10 => gen_map_assign(rng, k, m, fault),
+      10 => if rng.chance(1, 4) { gen_sel_op_assign(rng, k, m, fault) } else { gen_map_assign(rng, k, m, fault) },
       _ => gen_read(rng, k, m, fault),
     };
     if let Some(op) = op { return op; }
@@ -493,6 +493,18 @@ fn gen_field_assign(rng: &mut Rng, k: &Knobs, m: &Model, fault: bool) -> Option<
     }
     _ => Some(Op::FieldAssign { name, field: "a".into(), e: Expr::Lit(gen_scalar(rng, "f64")) }),
   }
+}
+
+/// f9: forms that parse but reach `todo!()` in the interpreter (`r.f += 1`, `t.1 -= 1`, `m{"a"} *= 2`).
+fn gen_sel_op_assign(rng: &mut Rng, k: &Knobs, m: &Model, fault: bool) -> Option<Op> {
+  let (name, _) = pick_target(rng, k, m, fault, |b| matches!(&b.v, SV::Record(_) | SV::Tuple(_) | SV::Map(_)))?;
+  let sel = match m.store.get(&name).map(|b| b.v.clone()) {
+    Some(SV::Record(f)) => format!(".{}", rng.pick(&f).0),
+    Some(SV::Tuple(el)) => format!(".{}", 1 + rng.usize(el.len())),
+    Some(SV::Map(kv)) if !kv.is_empty() => format!("{{{}}}", render_lit(&rng.pick(&kv).0)),
+    _ => ".a".to_string(),
+  };
+  Some(Op::SelOpAssign { name, sel, op: *rng.pick(&[Bop::Add, Bop::Sub, Bop::Mul, Bop::Div]), e: Expr::Lit(gen_scalar(rng, "f64")) })
 }
 
 fn gen_map_assign(rng: &mut Rng, k: &Knobs, m: &Model, fault: bool) -> Option<Op> {
